@@ -358,21 +358,49 @@ FP_MODULE = {
 }
 
 
-def _listings(m, thorough):
-    ls = [[0], [m - 1], [1, 0]] if not thorough else [[0], [1], [m - 1], [1, 0], [m - 1, 0], [0, 1, 2]]
-    return [{"_name": "l" + "".join(map(str, l)), "VP_LIST": ",".join(map(str, l))} for l in ls]
+def _graphs(thorough):
+    """(name, M, edges i->j, listing).  Curated graphs for the quick tier; the thorough tier adds
+    every digraph without self-loops on three modules (64) for three listings."""
+    def bits(m, edges):
+        v = 0
+        for i, j in edges:
+            v |= 1 << (i * m + j)
+        return v
+    g = [
+        ("chain3_top", 3, [(0, 1), (1, 2)], [0]),
+        ("chain3_rev", 3, [(2, 1), (1, 0)], [2]),
+        ("chain3_all_listed", 3, [(0, 1), (1, 2)], [2, 1, 0]),
+        ("two_paths3", 3, [(0, 1), (0, 2), (1, 2)], [0]),            # m2 reachable along two paths
+        ("two_paths3_rev", 3, [(2, 1), (2, 0), (1, 0)], [2]),
+        ("diamond4", 4, [(0, 1), (0, 2), (1, 3), (2, 3)], [0]),      # the classic diamond
+        ("diamond4_rev", 4, [(3, 1), (3, 2), (1, 0), (2, 0)], [3]),
+        ("star3", 3, [(1, 0), (2, 0)], [1, 2]),
+        ("independent3", 3, [], [2, 0, 1]),
+        ("cycle2", 3, [(0, 1), (1, 0)], [0]),
+        ("cycle3", 3, [(0, 1), (1, 2), (2, 0)], [1]),
+        ("self_loop", 3, [(0, 0)], [0]),
+        ("cycle_behind", 3, [(0, 1), (1, 2), (2, 1)], [0]),
+        ("unlisted_untouched", 3, [(0, 1)], [0]),
+    ]
+    if thorough:
+        pairs = [(i, j) for i in range(3) for j in range(3) if i != j]
+        for v in range(64):
+            edges = [pairs[k] for k in range(6) if (v >> k) & 1]
+            for l in ([0], [2], [1, 0]):
+                g.append(("g%02d_l%s" % (v, "".join(map(str, l))), 3, edges, l))
+    return [{"_name": n, "M": m, "VP_DEP": "%du" % bits(m, e), "VP_LIST": ",".join(map(str, l))} for n, m, e, l in g]
 
 
 RECIPES["C20"] = {
-    "claimed": False, "na_reason": "harness exists (harness/C20_graph.c) but its symbolic execution does not finish inside the budget yet",
+    "claimed": False, "na_reason": "see NOT_APPLICABLE",
     "units": ["src/module.c", "src/set.c", "src/common.c"],
     "jobs": [
         {"name": "graph", "src": ["C20_graph.c", "tu/module_tu.c", "repo:src/set.c", "repo:src/common.c", "repo:src/bitset.c", "env/core_env.c", "env/libc_models.c"],
-         "defs": {"all": {"VP_HAVE_MODULE": None}, "quick": {"M": 3}, "thorough": {"M": 4}},
-         "splits": {"quick": _listings(3, False), "thorough": _listings(4, True)},
+         "defs": {"all": {"VP_HAVE_MODULE": None, "VP_TYPED_REALLOC": None}},
+         "splits": {"quick": _graphs(False), "thorough": _graphs(True)},
          "unwind": 12, "unwindset": ["set_splay.0:6", "module_load:6", "module_depends:6", "stub_ctor:6", "module_dfs:6",
                                      "set_dispose_node:3", "module_cleanup:3", "set_insert:2", "module_get:3", "set_remove:3", "strlen.0:8", "strcpy.0:8", "strcmp.0:20", "strcasecmp.0:8",
-                                     "memcpy.0:80"],
+                                     "memcpy.0:80", "realloc.0:20", "realloc.1:80"],
          "fp_restrict": FP_MODULE, "timeout": 900},
     ],
 }
@@ -668,8 +696,11 @@ for _k, (_lt, _ln) in META.items():
         RECIPES[_k]["level_text"] = _lt
         RECIPES[_k]["level_note"] = _ln
         RECIPES[_k]["technique"] = _T
-NOT_APPLICABLE["C20"] = ("the property quantifies over the dependency GRAPH, which is the shape of the module table: with the dependency matrix symbolic, symbolic execution of "
-                         "module_load<->constructor<->module_depends does not finish (25 min, 3 modules); with the matrix enumerated nothing symbolic remains and the run would be a test, not a solver verdict (DESIGN A6)")
+NOT_APPLICABLE["C20"] = ("the property quantifies over the dependency GRAPH, which is the shape of the module table. Measured with harness/C20_graph.c (3 stub modules, real src/module.c): "
+                         "(a) dependency matrix symbolic: symbolic execution of module_load<->constructor<->module_depends gives no verdict in 25 min; "
+                         "(b) graph concrete per query and only the failing dlopen symbolic: the set of loaded modules still forks, only the edge-free graph is decided (0.7 s), a 3-chain gives no verdict in 5 min; "
+                         "(c) cbmc --paths lifo on the symbolic matrix: 32161 paths solved in 15 min without exhausting them; "
+                         "(d) everything enumerated: nothing symbolic remains, the run would be a test and not a solver verdict (DESIGN A6)")
 RECIPES["C20"]["na_reason"] = NOT_APPLICABLE["C20"]
 
 RECIPES["C16"]["jobs"].append(
